@@ -1362,6 +1362,7 @@ class Array:
         res = self.copy(deep=True)
         res.chinfo = chinfo2
         res.legs = [LegCharge.from_change_charge(leg, charge, new_qmod, new_name, chinfo2) for leg in self.legs]
+        res.qtotal = chinfo2.make_valid(self.qtotal)
         res.test_sanity()
         return res
 
